@@ -2391,15 +2391,19 @@ is_equal(const CPPDeclaration *other) const {
     return _u._typecast._op1 == ot->_u._typecast._op1;
 
   case T_unary_operation:
-    return *_u._op._op1 == *ot->_u._op._op1;
+    return _u._op._operator == ot->_u._op._operator &&
+      *_u._op._op1 == *ot->_u._op._op1;
 
   case T_binary_operation:
-    return *_u._op._op1 == *ot->_u._op._op1 &&
+    return _u._op._operator == ot->_u._op._operator &&
+      *_u._op._op1 == *ot->_u._op._op1 &&
       *_u._op._op2 == *ot->_u._op._op2;
 
   case T_trinary_operation:
-    return *_u._op._op1 == *ot->_u._op._op1 &&
-      *_u._op._op2 == *ot->_u._op._op2;
+    return _u._op._operator == ot->_u._op._operator &&
+      *_u._op._op1 == *ot->_u._op._op1 &&
+      *_u._op._op2 == *ot->_u._op._op2 &&
+      *_u._op._op3 == *ot->_u._op._op3;
 
   case T_literal:
     return *_u._literal._value == *ot->_u._literal._value &&
@@ -2500,18 +2504,27 @@ is_less(const CPPDeclaration *other) const {
     return _u._typecast._op1 < ot->_u._typecast._op1;
 
   case T_trinary_operation:
+    if (_u._op._operator != ot->_u._op._operator) {
+      return _u._op._operator < ot->_u._op._operator;
+    }
     if (*_u._op._op3 != *ot->_u._op._op3) {
       return *_u._op._op3 < *ot->_u._op._op3;
     }
     // Fall through
 
   case T_binary_operation:
+    if (_u._op._operator != ot->_u._op._operator) {
+      return _u._op._operator < ot->_u._op._operator;
+    }
     if (*_u._op._op2 != *ot->_u._op._op2) {
       return *_u._op._op2 < *ot->_u._op._op2;
     }
     // Fall through
 
   case T_unary_operation:
+    if (_u._op._operator != ot->_u._op._operator) {
+      return _u._op._operator < ot->_u._op._operator;
+    }
     return *_u._op._op1 < *ot->_u._op._op1;
 
   case T_literal:
